@@ -2071,3 +2071,73 @@ def c08_cases(rng, n):
         it.meta = {'gen': 'c08', 'spec': spec, 'instr': nm, 'cp': 'A'}
         out.append(it)
     return out
+
+
+# ---------------------------------------------------------------------------------------------
+# C02: structured enums whose designated arms are known by construction
+# ---------------------------------------------------------------------------------------------
+def c02_cases(rng, n):
+    out = []
+    names = [x for x in TRAIT_NAMES if 'existing' not in x]
+    for i in range(n):
+        cps = ['A'] if rng.random() < 0.7 else ['A', 'B']
+        attrs = []
+        dflt = {}
+        for cp in cps:
+            taken = set()
+            for nm in rng.sample(names, rng.choice([1, 2, 3])):
+                ks = set(kinds_of(nm))
+                if ks & taken:
+                    continue
+                taken |= ks
+                dc = rng.choice(['', '', '_ { dflt() }'])
+                attrs.append(trait_attr(nm, cp, '', 'Er', dc))
+        vs = []
+        for j in range(rng.randrange(1, 5)):
+            sh = rng.choice(['unit', 'tuple', 'named'])
+            va = []
+            spec = {'rename': None, 'hint': None, 'ghost': None, 'expr': None}
+            r = rng.random()
+            if r < 0.3:
+                spec['rename'] = 'W%d' % j
+                va.append(mattr(rng.choice(['map', 'map', 'from', 'into']), member=spec['rename']))
+                spec['rename_instr'] = va[-1].name
+            elif r < 0.42:
+                spec['ghost'] = rng.choice(['dv%d()' % j, None])
+                va.append(gattr('ghost', default=spec['ghost']))
+            if rng.random() < 0.25 and spec['ghost'] is None and 'ghost' not in [a.name for a in va]:
+                spec['hint'] = rng.choice(['as {}', 'as ()', 'as Unit'])
+                va.append(Attr('type_hint', spec['hint']))
+            fs = []
+            if sh != 'unit':
+                nfl = rng.randrange(1, 4)
+                perm = list(range(nfl))
+                rng.shuffle(perm)
+                use_perm = rng.random() < 0.3
+                for q in range(nfl):
+                    fa = []
+                    named_dst = (spec['hint'] == 'as {}') or (spec['hint'] is None and sh == 'named')
+                    r2 = rng.random()
+                    if sh == 'tuple' and named_dst:
+                        member = 'k%d' % q
+                    elif not named_dst and use_perm and spec['hint'] != 'as Unit':
+                        member = perm[q]
+                    elif not named_dst:
+                        member = None
+                    else:
+                        member = ('k%d' % q) if r2 < 0.5 else None
+                    if member is not None and r2 < 0.3:
+                        fa.append(mattr('map', member=member, expr=rng.choice(['~ + 1', '~.clone()', 'h(~)'])))
+                    elif member is not None:
+                        fa.append(mattr('map', member=member))
+                    elif r2 < 0.25:
+                        fa.append(mattr('map', expr=rng.choice(['~ + 1', 'h(~)'])))
+                    elif r2 < 0.33:
+                        fa.append(gattr('ghost', default='0'))
+                    fs.append(Field(('x%d' % q) if sh == 'named' else None, 'i32', fa))
+            v = Variant('V%d' % j, sh, fs, va)
+            v.spec = spec
+            vs.append(v)
+        it = Item('enum', 'E', 'named', '', attrs, vs, {'gen': 'c02'})
+        out.append(it)
+    return out
